@@ -50,6 +50,125 @@ fn paths_of_listing(lines: &[String]) -> Vec<String> {
     lines.iter().filter_map(|l| l.strip_prefix("entry ").and_then(|x| x.split(',').next()).and_then(|h| hex::decode(h).ok()).map(|b| String::from_utf8_lossy(&b).to_string())).collect()
 }
 
+
+/// What the README promises of `--exclude-from`: "one per line, ignoring leading and trailing whitespace, and
+/// skipping comment lines that start with a `#`" (blank lines hold no pattern).  Written here independently of
+/// src/excludes.rs.
+fn spec_patterns_of_file(text: &str) -> Vec<String> {
+    text.lines().map(|l| l.trim_matches(|c: char| c.is_whitespace())).filter(|l| !l.is_empty() && !l.starts_with('#')).map(|l| l.to_string()).collect()
+}
+
+/// Exclude FILES: generated file contents (patterns with '#' inside, rooted patterns whose name also exists deeper,
+/// padded patterns, comments, indented comments, blank and whitespace-only lines), split over one to three `-E`
+/// files (the last one possibly without any pattern) and combined with `-e`.  `backup`, `ls`, `diff` and `restore`
+/// with those options must do what the library does with the pattern list the README's rule yields.
+fn exclude_file_probe(prop: &str, rng: &mut Rng, report: &mut Report) {
+    const PATTERN_LINES: &[&str] = &[".#*", "report#*", "/cache", "*.o", "  *.o  ", "\t/data/report.txt", "/keep?.txt", "Track #??.wav", "main.*", "/src/main.c", "data/cache"];
+    const OTHER_LINES: &[&str] = &["", "   ", "\t", " \t ", "# a comment", "   # an indented comment", "#", "#*.txt", "  #/keep1.txt"];
+    for round in 0..4 {
+        let work = tempfile::tempdir().unwrap();
+        let w = work.path();
+        let src = w.join("src");
+        for d in ["report", "cache", "data/cache", "src"] {
+            std::fs::create_dir_all(src.join(d)).unwrap();
+        }
+        for (f, c) in [(".#notes.txt", "lock"), ("report#draft", "d"), ("report/q1.txt", "q1"), ("cache/x", "x"), ("data/cache/y", "y"), ("data/report.txt", "r"), ("junk.o", "o"), ("src/main.o", "mo"), ("src/main.c", "mc"), ("keep1.txt", "k"), ("Track #01.wav", "w")] {
+            std::fs::write(src.join(f), c).unwrap();
+        }
+        // file contents
+        let n_files = 1 + rng.below(3);
+        let mut files: Vec<String> = Vec::new();
+        for i in 0..n_files {
+            let last = i + 1 == n_files;
+            let mut text = String::new();
+            let n_lines = 1 + rng.below(6);
+            for _ in 0..n_lines {
+                // the last file of several is, half of the time, free of patterns (a template still commented out)
+                let only_other = last && n_files > 1 && round % 2 == 0;
+                let line = if only_other || rng.chance(2, 5) { OTHER_LINES[rng.below(OTHER_LINES.len())] } else { PATTERN_LINES[rng.below(PATTERN_LINES.len())] };
+                text.push_str(line);
+                text.push('\n');
+            }
+            if round == 3 && i == 0 {
+                text = " \n\t\n# nothing but blanks and comments\n   # here\n".to_string();
+            }
+            files.push(text);
+        }
+        let e_pats: Vec<String> = if rng.chance(1, 2) { vec!["*.wav".to_string()] } else { vec![] };
+        let mut want: Vec<String> = e_pats.clone();
+        let mut opt: Vec<String> = Vec::new();
+        for p in &e_pats {
+            opt.extend(["-e".to_string(), p.clone()]);
+        }
+        for (i, t) in files.iter().enumerate() {
+            let f = w.join(format!("exclude-{i}.txt"));
+            std::fs::write(&f, t).unwrap();
+            opt.extend([if i % 2 == 0 { "-E".to_string() } else { "--exclude-from".to_string() }, s(&f).to_string()]);
+            want.extend(spec_patterns_of_file(t));
+        }
+        let case = json!({"cli": prop, "exclude_files": files, "-e": e_pats, "patterns_by_the_documented_rule": want});
+        report.case(&format!("cli-exclude-file/{prop}/{round}/{files:?}/{e_pats:?}"), !want.is_empty());
+        report.hit("cli:exclude-file-probe");
+        report.hit(&format!("cli:exclude-files={n_files}"));
+        let opt: Vec<&str> = opt.iter().map(|x| x.as_str()).collect();
+        // backup with the options == library backup with the pattern list
+        let (a_cli, a_lib, a_all) = (w.join("a-cli"), w.join("a-lib"), w.join("a-all"));
+        let _ = cli(&["init", s(&a_cli)]);
+        let _ = cli(&["init", s(&a_all)]);
+        let (rc, _, e) = cli(&[&["backup", s(&a_cli), s(&src), "--no-stats"][..], &opt[..]].concat());
+        let (rc_all, _, _) = cli(&["backup", s(&a_all), s(&src), "--no-stats"]);
+        create_archive(&a_lib);
+        let lb = real_backup(&a_lib, &src, &defaults(want.clone()), IceptConfig::default());
+        if rc != 0 || rc_all != 0 || !lb.result.starts_with("result ok") {
+            report.oracle_fail("cli:backup-failed", case.clone(), "`conserve backup` with exclude files failed", json!({"rc": rc, "stderr": e.chars().take(300).collect::<String>(), "library": crate::compare::trunc(&lb.result)}));
+            continue;
+        }
+        let listed = |a: &Path| -> Vec<String> { paths_of_listing(&real_list(a, &Sel::Latest, "/", &[], IceptConfig::default()).lines) };
+        let (got, exp) = (listed(&a_cli), listed(&a_lib));
+        if got != exp {
+            report.oracle_fail("cli:exclude-file-backup-differs", case.clone(), "`conserve backup -E file…` stored other entries than a backup with the patterns the documented rule reads from the files", json!({"stored": got, "expected": exp}));
+        }
+        // the whole source restores from it, minus what the patterns match (C01's reading)
+        let dest = w.join("dest");
+        let (rc, _, _) = cli(&["restore", s(&a_cli), s(&dest), "--no-stats"]);
+        let restored: Vec<String> = if dest.exists() { observe(&dest).into_iter().map(|o| o.apath).collect() } else { vec![] };
+        let mut exp_sorted = exp.clone();
+        exp_sorted.sort();
+        if rc != 0 || restored != exp_sorted {
+            report.oracle_fail("cli:exclude-file-restore-differs", case.clone(), "restoring the version made with exclude files does not give the source minus the excluded entries", json!({"rc": rc, "restored": restored, "expected": exp}));
+        }
+        // ls / restore / diff of a FULL backup with the same options
+        let (rc, out, _) = cli(&[&["ls", s(&a_all)][..], &opt[..]].concat());
+        let got: Vec<String> = out.lines().map(|l| l.to_string()).collect();
+        if rc != 0 || got != exp {
+            report.oracle_fail("cli:exclude-file-ls-differs", case.clone(), "`conserve ls -E file…` of a full backup lists other entries than the documented rule gives", json!({"listed": got, "expected": exp}));
+        }
+        let dest2 = w.join("dest2");
+        let (rc, _, _) = cli(&[&["restore", s(&a_all), s(&dest2), "--no-stats"][..], &opt[..]].concat());
+        let restored: Vec<String> = if dest2.exists() { observe(&dest2).into_iter().map(|o| o.apath).collect() } else { vec![] };
+        if rc != 0 || restored != exp_sorted {
+            report.oracle_fail("cli:exclude-file-restore-differs", case.clone(), "`conserve restore -E file…` of a full backup restores other entries than the documented rule gives", json!({"rc": rc, "restored": restored, "expected": exp}));
+        }
+        std::fs::write(src.join("keep1.txt"), "changed and longer").unwrap();
+        std::fs::write(src.join("fresh.o"), "o").unwrap();
+        std::fs::write(src.join("fresh.txt"), "t").unwrap();
+        for inc in [false, true] {
+            let mut a = vec!["diff", s(&a_cli), s(&src)];
+            if inc {
+                a.push("--include-unchanged");
+            }
+            let (rc, out, _) = cli(&[&a[..], &opt[..]].concat());
+            let mut got: Vec<String> = out.lines().map(|l| l.to_string()).collect();
+            got.sort();
+            let mut exp = crate::c18::library_diff_lines(&a_lib, &src, inc, &want);
+            exp.sort();
+            if rc != 0 || got != exp {
+                report.oracle_fail("cli:exclude-file-diff-differs", case.clone(), "`conserve diff -E file…` reports other changes than the library diff with the patterns the documented rule gives", json!({"include_unchanged": inc, "printed": got, "expected": exp}));
+            }
+        }
+    }
+}
+
 pub fn run(prop: &str, _tier: &str, seed: u64, report: &mut Report) {
     if bin().is_none() {
         report.hit("cli:binary-not-available");
@@ -57,6 +176,9 @@ pub fn run(prop: &str, _tier: &str, seed: u64, report: &mut Report) {
         return;
     }
     let mut rng = Rng::new(seed ^ 0xC11);
+    if matches!(prop, "C01" | "C02" | "C15" | "C18") {
+        exclude_file_probe(prop, &mut rng, report);
+    }
     for round in 0..3 {
         let st = setup(&mut rng);
         let w = st.work.path();
@@ -64,6 +186,15 @@ pub fn run(prop: &str, _tier: &str, seed: u64, report: &mut Report) {
         let case = json!({"cli": prop, "round": round, "tree": st.tree.nodes.keys().collect::<Vec<_>>()});
         report.case(&format!("cli/{prop}/{round}/{}", st.tree.nodes.len()), true);
         report.hit(&format!("cli:{prop}"));
+        if prop == "C12" {
+            // a directory whose NAME holds a backslash (an ordinary character on Unix) next to a/b
+            for d in ["cli-bs/a/b", "cli-bs/a\\b/sub"] {
+                std::fs::create_dir_all(st.src.join(d)).unwrap();
+            }
+            for f in ["cli-bs/a/b/plain", "cli-bs/a\\b/inner", "cli-bs/a\\b/sub/deep"] {
+                std::fs::write(st.src.join(f), f).unwrap();
+            }
+        }
         // exclusions for the properties that are about them
         let excl: Vec<String> = if prop == "C15" {
             // something for each pattern to match: "-e" takes the first, the exclude file the other two
@@ -118,6 +249,19 @@ pub fn run(prop: &str, _tier: &str, seed: u64, report: &mut Report) {
                 let untouched = std::fs::read(busy.join("precious")).ok().as_deref() == Some(b"keep me".as_slice()) && std::fs::read_dir(&busy).unwrap().count() == 1;
                 if rc2 == 0 || !untouched {
                     report.oracle_fail("cli:restore-into-non-empty", case.clone(), "`conserve restore` into a non-empty directory without --force-overwrite must fail and leave it untouched", json!({"rc": rc2, "untouched": untouched}));
+                }
+                // no other option may switch the refusal off
+                let cj_in = busy.join("changes.json");
+                let cj_out = w.join("changes-outside.json");
+                for extra in [vec!["-v"], vec!["-l"], vec!["--changes-json", s(&cj_out)], vec!["--changes-json", s(&cj_in)], vec!["-e", "nothing-matches-this"], vec!["--only", "/"], vec!["-b", "b0000"]] {
+                    let (rc, _, _) = cli(&[&["restore", s(&a_cli), s(&busy), "--no-stats"][..], &extra[..]].concat());
+                    let names: Vec<String> = std::fs::read_dir(&busy).unwrap().flatten().map(|e| e.file_name().to_string_lossy().to_string()).filter(|n| n != "changes.json").collect();
+                    let untouched = std::fs::read(busy.join("precious")).ok().as_deref() == Some(b"keep me".as_slice()) && names == vec!["precious".to_string()];
+                    if rc == 0 || !untouched {
+                        report.oracle_fail("cli:restore-into-non-empty", case.clone(), "`conserve restore` into a non-empty directory without --force-overwrite must fail and leave it untouched, whatever other options are given", json!({"options": extra, "rc": rc, "untouched": untouched, "now_there": names}));
+                    }
+                    // (the command creates the --changes-json file itself before looking at the destination)
+                    let _ = std::fs::remove_file(&cj_in);
                 }
                 let (rc3, _, _) = cli(&["restore", s(&a_cli), s(&busy), "--no-stats", "--force-overwrite"]);
                 if rc3 != 0 && !st.tree.nodes.contains_key("/precious") {
@@ -197,14 +341,18 @@ pub fn run(prop: &str, _tier: &str, seed: u64, report: &mut Report) {
                         report.oracle_fail("cli:diff-exclusions-differ-from-library", case.clone(), "`conserve diff -e .. -E ..` does not print what the library diff with the same patterns reports", json!({"rc": rc, "cli": got.len(), "library": want.len()}));
                     }
                 }
-                if let Some(sub) = st.tree.nodes.iter().find(|(k, n)| *k != "/" && n.kind == NodeKind::Dir).map(|(k, _)| k.clone()) {
-                    let dest = w.join("only");
-                    let mut rargs: Vec<String> = vec!["restore".into(), s(&a_cli).into(), s(&dest).into(), "--only".into(), sub.clone(), "--no-stats".into()];
+                let mut subs: Vec<String> = st.tree.nodes.iter().filter(|(k, n)| *k != "/" && n.kind == NodeKind::Dir).map(|(k, _)| k.clone()).take(2).collect();
+                if prop == "C12" {
+                    subs.extend(["/cli-bs/a\\b".to_string(), "/cli-bs/a\\b/sub".to_string(), "/cli-bs/a/b".to_string(), "/cli-bs/a".to_string()]);
+                }
+                for (i, sub) in subs.into_iter().enumerate() {
+                    let dest = w.join(format!("only{i}"));
+                    let mut rargs: Vec<String> = vec!["restore".into(), s(&a_cli).into(), s(&dest).into(), (if i % 2 == 0 { "--only" } else { "-i" }).into(), sub.clone(), "--no-stats".into()];
                     if prop == "C15" {
                         rargs.extend(["-e".into(), excl[0].clone(), "-E".into(), s(&exfile).into()]);
                     }
                     let (rc, _, _) = cli(&rargs.iter().map(|x| x.as_str()).collect::<Vec<_>>());
-                    let ldest = w.join("only-lib");
+                    let ldest = w.join(format!("only-lib{i}"));
                     let lr = real_restore(&a_lib, &ldest, &RestoreParams { sel: Sel::Latest, subtree: Some(sub.clone()), exclude: excl.clone(), overwrite: false }, IceptConfig::default());
                     let (c, l) = (if dest.exists() { observe(&dest) } else { vec![] }, if ldest.exists() { observe(&ldest) } else { vec![] });
                     let same_paths = c.iter().map(|o| &o.apath).collect::<Vec<_>>() == l.iter().map(|o| &o.apath).collect::<Vec<_>>();
@@ -236,16 +384,17 @@ pub fn run(prop: &str, _tier: &str, seed: u64, report: &mut Report) {
                 if rc != 0 || abstract_archive(&a_cli).0 != abstract_archive(&copy).0 {
                     report.oracle_fail("cli:gc-differs-from-library", case.clone(), "`conserve gc` leaves a different archive than the library call", json!({"rc": rc}));
                 }
-                if prop == "C06" {
-                    // a garbage-collection lock left in the archive: backup, delete and gc must refuse (exit
-                    // non-zero, nothing changes); --break-lock lets gc go ahead and removes the lock
+                if prop == "C06" || prop == "C05" {
+                    // a garbage-collection lock left in the archive: backup, delete and gc — dry runs too — must
+                    // refuse (exit non-zero, nothing changes, the lock stays); --break-lock lets gc go ahead and
+                    // removes the lock
                     std::fs::write(a_cli.join("GC_LOCK"), b"{}\n").unwrap();
                     let before = abstract_archive(&a_cli).0;
-                    for args in [vec!["backup", s(&a_cli), s(&st.src), "--no-stats"], vec!["delete", s(&a_cli), "-b", "b0002", "--no-stats"], vec!["gc", s(&a_cli), "--no-stats"]] {
+                    for args in [vec!["delete", s(&a_cli), "-b", "b0002", "--no-stats", "--dry-run"], vec!["gc", s(&a_cli), "--no-stats", "--dry-run"], vec!["backup", s(&a_cli), s(&st.src), "--no-stats"], vec!["delete", s(&a_cli), "-b", "b0002", "--no-stats"], vec!["gc", s(&a_cli), "--no-stats"]] {
                         let (rc, _, _) = cli(&args);
                         let after = abstract_archive(&a_cli).0;
-                        if rc == 0 || after != before {
-                            report.oracle_fail("cli:ran-under-gc-lock", case.clone(), "a command that must respect the garbage-collection lock went ahead (or reported success) while the lock was held", json!({"command": args[0], "rc": rc, "archive_changed": after != before}));
+                        if rc == 0 || after != before || !a_cli.join("GC_LOCK").is_file() {
+                            report.oracle_fail("cli:ran-under-gc-lock", case.clone(), "a command that must respect the garbage-collection lock went ahead (or reported success) while the lock was held", json!({"command": args[..1].iter().chain(args.iter().filter(|a| a.starts_with("--d"))).collect::<Vec<_>>(), "rc": rc, "archive_changed": after != before, "lock_still_there": a_cli.join("GC_LOCK").is_file()}));
                         }
                     }
                     let (rc, _, _) = cli(&["gc", s(&a_cli), "--no-stats", "--break-lock"]);
@@ -284,6 +433,14 @@ pub fn run(prop: &str, _tier: &str, seed: u64, report: &mut Report) {
                     if rc == 0 {
                         report.oracle_fail("cli:validate-silent-exit-code", case.clone(), "`conserve validate` (full) exits 0 although a block's content is damaged", json!({"block": b.file_name().unwrap().to_str()}));
                     }
+                    // the same with a garbage-collection lock left behind by a killed gc (validate does not lock)
+                    std::fs::write(a_cli.join("GC_LOCK"), b"{}\n").unwrap();
+                    let (rc, _, _) = cli(&["validate", s(&a_cli), "--no-stats"]);
+                    if rc == 0 {
+                        report.oracle_fail("cli:validate-silent-exit-code", case.clone(), "`conserve validate` (full) exits 0 although a block's content is damaged (a stale GC_LOCK is present)", json!({"block": b.file_name().unwrap().to_str()}));
+                    }
+                    std::fs::remove_file(a_cli.join("GC_LOCK")).unwrap();
+                    let _ = cli(&["validate", s(&a_cli), "--no-stats", "--quick", "-D"]);
                     std::fs::write(b, &orig).unwrap();
                 }
                 if let Some(b) = blocks.first() {
